@@ -231,3 +231,58 @@ for _lab, _r, _c, _stored in RANGE_CASES:
         call=(lambda r, c, st: (lambda it, fn, far: range_call(False, r, c, st)(it, fn, far.value)))(_r, _c, _stored),
         native_call=(lambda r, c, st: (lambda fn, far: range_call(True, r, c, st)(fn, far.value)))(_r, _c, _stored),
         cross_key=lambda v: (v['log'], v['shape'], v['vals']) if isinstance(v, dict) else repr(v), max_paths=200))
+
+
+# ---- P4': the extent is decided at EVERY evaluation (a cell that receives a value later is inside the next evaluation) -----------------------
+def range_twice_call(native, rows):
+    def call(it, fn, far):
+        from xlcalculator import ast_nodes, xltypes
+        log = []
+        name = f'S!A1:A{rows}'
+        mk = (lambda n, **kw: Stub(n, **kw)) if not native else (lambda n, **kw: type('O', (), kw)())
+        cells = {addr(1, 1): mk('cell', formula=None, value=7)}
+
+        def eval_cell(a):
+            log.append(a)
+            return T().Number(len(log))
+        rng = xltypes.XLRange(name, name)                      # a REAL range object (whatever the code keeps on it, it can)
+        if native:
+            ctx = mk('ctx', sheet='S', refsheet='S', ranges={name: rng}, cells=cells)
+            ctx.eval_cell = eval_cell
+            ctx.set_sheet = lambda *a: None
+        else:
+            ctx = Stub('ctx', sheet='S', refsheet='S', ranges={name: rng}, cells=cells,
+                       eval_cell=ModelFn(lambda it_, a: eval_cell(a), 'eval_cell'), set_sheet=ModelFn(lambda it_, *a: None, 'set_sheet'))
+        node = ast_nodes.RangeNode(_tok(name[2:]))
+        run = lambda: (it or _Native()).call(ast_nodes.RangeNode.eval, [node, ctx], {})
+        first = tuple(run().shape)
+        cells[addr(rows - 10, 1)] = mk('cell', formula=None, value=far)        # an input far down the range gets its first value
+        n0 = len(log)
+        second = tuple(run().shape)
+        return dict(first=first, second=second, log2=log[n0:])
+    if native:
+        return lambda fn, far: call(None, fn, far)
+    return call
+
+
+def range_twice_ens(rows):
+    def ens(far, out):
+        if out.kind != 'ret':
+            return False
+        o = out.value
+        nr, nc = o['second']
+        if nc != 1 or o['log2'] != [addr(r, 1) for r in range(1, nr + 1)]:
+            return False
+        return Implies(used_spec(far), nr >= rows - 10)
+    return ens
+
+
+for _prop, _rows in (('C03', 150), ('C03', 400), ('C04', 150)):             # (C04: no stale range shape between evaluations)
+    UNITS.append(Unit(
+        id=f'{_prop}/ast_nodes.RangeNode.eval/extent_follows_the_cells[{_rows} rows]', target='xlcalculator.ast_nodes:RangeNode.eval', prop=_prop,
+        inputs=[('far', FAR)],
+        cases=[Case('a cell that receives a value after the range was first evaluated lies inside the extent of the next evaluation',
+                    lambda far: True, (lambda n: lambda far, out: range_twice_ens(n)(far.value, out))(_rows))],
+        call=(lambda n: (lambda it, fn, far: range_twice_call(False, n)(it, fn, far.value)))(_rows),
+        native_call=(lambda n: (lambda fn, far: range_twice_call(True, n)(fn, far.value)))(_rows),
+        cross_key=lambda v: (v['first'], v['second'], v['log2']) if isinstance(v, dict) else repr(v), max_paths=200))
